@@ -308,13 +308,29 @@ def run_family_sharded(fam, n, seed, tier, shards=16, replay=None, extra=None, t
         procs.append((subprocess.Popen(cmd, stdout=fh, stderr=subprocess.PIPE, text=True, env=GOENV), fh, hout))
     rows = []
     crash = None
+    cmds = {}
+    for i in range(shards):
+        cmds[os.path.join(WORK, "%s_%d_s%d.go.jsonl" % (fam, os.getpid(), i))] = i
     for p, fh, hout in procs:
+        timed_out = False
         try:
             _, err = p.communicate(timeout=timeout)
         except subprocess.TimeoutExpired:
+            timed_out = True
             p.kill()
             _, err = p.communicate()
         fh.close()
+        if p.returncode is not None and p.returncode < 0 and not timed_out and "fatal error" not in (err or "") and "panic:" not in (err or ""):
+            # killed from outside (e.g. the kernel's out-of-memory killer on a machine shared with other jobs): not an answer of
+            # the code under test - run that shard once more, alone
+            cmd = list(p.args)
+            with open(hout, "w") as fh2:
+                p = subprocess.Popen(cmd, stdout=fh2, stderr=subprocess.PIPE, text=True, env=GOENV)
+                try:
+                    _, err = p.communicate(timeout=timeout)
+                except subprocess.TimeoutExpired:
+                    p.kill()
+                    _, err = p.communicate()
         if p.returncode != 0 and crash is None:
             last = None
             for mm in re.finditer(r"^CASE (\S+)$", err or "", flags=re.M):
